@@ -8,6 +8,7 @@
 //!     independent verifier must have no effect on sockets or replies (`cksum/partc.rs`).
 
 mod lowpan;
+mod lowrx;
 mod parta;
 mod partb;
 mod partc;
@@ -31,6 +32,7 @@ pub fn run(tier: Tier) -> i32 {
     lowpan::run(&mut rep, tier);
     let tb = t.elapsed().as_secs_f64();
     partc::run(&mut rep, tier);
+    lowrx::run(&mut rep, tier);
     let tc = t.elapsed().as_secs_f64();
     eprintln!("C08 part wall times: (a) {:.1}s (b) {:.1}s (c) {:.1}s", ta, tb - ta, tc - tb);
     rep.cov("rule", json!("states = distinct inputs evaluated: (a) (length, alignment, content) tuples, combine tuples, pseudo-header tuples; (b) scenario instances (medium, capabilities, kind, version, size, pattern); (c) distinct packets (base or mutant) delivered. transitions = evaluations of smoltcp code: checksum calls in (a), Interface::poll calls in (b)/(c)"));
@@ -44,6 +46,7 @@ pub fn replay(art: &serde_json::Value) -> i32 {
         "b" => partb::replay(r),
         "b6" => lowpan::replay(r),
         "c" => partc::replay(r),
+        "c6" => lowrx::replay(r),
         other => {
             eprintln!("unknown replay part {:?}", other);
             2
